@@ -101,6 +101,13 @@ def check(rep, ctx):
         c["path"] = rsrc.rel
         classes.append(c)
     entity_keys = set(S.classes) | {c["key"] for c in rm["classes"]}
+    R_U = rep.rule("C15-unique-names", "every class name is defined once per module (a field annotated with a class that is redefined further down "
+                   "holds instances of a class nobody can name: unequal to instances built from the public name, not picklable)", floor=660)
+    for mname_, m_ in sorted(S.modules.items()):
+        names_ = [c_["name"] for c_ in m_["classes"]]
+        dup_ = sorted({n_ for n_ in names_ if names_.count(n_) > 1})
+        rep.check(R_U, not dup_, construct=mname_, stmt=f"classes {names_}", message=f"class name(s) {dup_} are defined more than once in the module",
+                  file=m_["path"], line=1)
     # a plain helper class of the records module (an accessor mix-in) is harmless exactly when it adds no per-instance storage: it declares
     # empty __slots__, has no fields, and its own bases are of the same kind.  Without __slots__ every instance of a subclass gets a
     # __dict__, whatever slots=True says on the dataclass: object.__setattr__(batch, "x", []) then succeeds on a "frozen" value.
@@ -132,6 +139,32 @@ def check(rep, ctx):
                                   f"attached state is invisible to == and hash()", **where)
             continue
         ok, why = False, "no dataclass decorator"
+        helper_note = None
+        if len(dec) == 1 and c["module"] == "kio.records.schema" and isinstance(dec[0], dict) and "call" not in dec[0]:
+            # a module-level helper that applies the dataclass decorator: accepted when it RETURNS what dataclass(...) returns.  With
+            # slots=True dataclass() builds a new class; a helper that calls it and returns its own argument hands back the old one.
+            hname = (dec[0].get("n") or "").rpartition(":")[2]
+            hfn = next((n_ for n_ in rsrc.tree.body if isinstance(n_, ast.FunctionDef) and n_.name == hname), None)
+            if hfn is not None and len(hfn.args.args) == 1:
+                param = hfn.args.args[0].arg
+                calls = [n_ for n_ in ast.walk(hfn) if isinstance(n_, ast.Call) and isinstance(n_.func, ast.Call) and
+                         ast.unparse(n_.func.func).split(".")[-1] == "dataclass" and len(n_.args) == 1 and ast.unparse(n_.args[0]) == param]
+                rets = [n_ for n_ in ast.walk(hfn) if isinstance(n_, ast.Return)]
+                if len(calls) == 1 and len(rets) == 1:
+                    inner = calls[0].func
+                    opts_ = {k_.arg: (k_.value.value if isinstance(k_.value, ast.Constant) else None) for k_ in inner.keywords}
+                    returned_call = rets[0].value is calls[0]
+                    if not returned_call and isinstance(rets[0].value, ast.Name):
+                        # `x = dataclass(...)(cls); return x` is fine, `dataclass(...)(cls); return cls` is not
+                        assigned = [n_ for n_ in ast.walk(hfn) if isinstance(n_, ast.Assign) and n_.value is calls[0] and len(n_.targets) == 1
+                                    and isinstance(n_.targets[0], ast.Name) and n_.targets[0].id == rets[0].value.id]
+                        returned_call = bool(assigned) and rets[0].value.id != param
+                    if returned_call:
+                        dec = [{"call": {"n": "dataclasses:dataclass"}, "args": [], "kw": {k_: {"c": v_} for k_, v_ in opts_.items()}}]
+                    else:
+                        helper_note = (f"the helper {hname} applies dataclass({', '.join(f'{k_}={v_}' for k_, v_ in opts_.items())}) but returns its "
+                                       f"argument: with slots=True dataclass() returns a NEW class and leaves the original without __slots__, so "
+                                       f"every instance has a __dict__")
         if len(dec) == 1:
             d = dec[0]
             if "call" in d and d["call"].get("n") == "dataclasses:dataclass" and not d["args"]:
@@ -145,7 +178,7 @@ def check(rep, ctx):
                 why = f"decorator is {d}"
         elif len(dec) > 1:
             why = f"{len(dec)} decorators"
-        rep.check(R_D, ok, construct=c["key"], stmt=f"decorators {dec}", message=why, **where)
+        rep.check(R_D, ok, construct=c["key"], stmt=f"decorators {dec}", message=helper_note or why, **where)
         bases_ok = not c["bases"] or (c["module"] == "kio.records.schema" and all(_base_ok(b_) for b_ in c["bases"]))
         rep.check(R_B, bases_ok and not c["keywords"], construct=c["key"], stmt=f"bases {c['bases']} keywords {c['keywords']}",
                   message=f"entity class has bases {c['bases']} / keywords {c['keywords']}: a base that is not a field-less class with empty "
